@@ -178,7 +178,7 @@ def handleWInt (op : String) (args : List Sexp) (res : List Sexp) : Verdict :=
       | some wd, some lb, some ub, some ri =>
         let uns : Option String := match ri with
           | some ri =>
-            if 1 ≤ wd && wd ≤ 64 && lb ≤ ub && ub - lb < 2 ^ wd then
+            if 1 ≤ wd && wd ≤ 64 && lb ≤ ub then
               [lb, lb + 1, ub, ub - 1, (lb + ub) / 2].findSome? (fun z =>
                 if lb ≤ z && z ≤ ub && !contains ri wd (z % (2 ^ wd : Int)).toNat
                 then some s!"witness {z} mod 2^{wd} not in the result" else none)
